@@ -125,6 +125,7 @@ func runC19(c *Ctx) {
 	}
 	c19TagLint(c, tp)
 	c19Dump(c)
+	c19DistinctElements(c)
 	c19FileNames(c)
 }
 
